@@ -706,3 +706,267 @@ Proof.
   repeat (bmH H); try (invSR H; discriminate).
   eapply init_byte_seq_inv in H; eauto.
 Qed.
+
+(* ---------- reading the shape off the current state ---------- *)
+Ltac zconst := unfold stFail, stValue, stLen, stStartX, stIndef, mUint, mNeg, mBytes, mText,
+  mArr, mMap, mTag, stKey, stElem, stStart, stCont in *.
+Ltac splitor := repeat match goal with H : _ \/ _ |- _ => destruct H as [H|H] end.
+
+Ltac shape_contra :=
+  exfalso; repeat match goal with H : ctxs (_ :: _) |- _ => apply ctxs_head in H end;
+  unfold is_sub, leafm in *; splitor; zconst; lia.
+
+Lemma shape_ctx : forall c l, shape (c :: l) ->
+  c_major c = stValue \/ is_sub (c_major c) -> ctxs (c :: l).
+Proof. intros c l H Hm. inversion H; subst; auto; shape_contra. Qed.
+Lemma shape_leaf : forall c l, shape (c :: l) -> leafm (c_major c) -> ctxs l.
+Proof. intros c l H Hm. inversion H; subst; auto; shape_contra. Qed.
+Lemma shape_subx : forall c l m, shape (c :: l) -> is_sub m -> c_major c = m + stStartX ->
+  exists c2 l', l = c2 :: l' /\ c_major c2 = m /\ ctxs (c2 :: l').
+Proof.
+  intros c l m H Hm Hc. inversion H; subst; try shape_contra.
+  eexists _, _. split; [reflexivity|]. split; [lia|assumption].
+Qed.
+Lemma shape_len : forall c l, shape (c :: l) -> c_major c = stLen -> lenable l /\ shape l.
+Proof. intros c l H Hc. inversion H; subst; auto; shape_contra. Qed.
+
+Lemma count_of_0 : forall p,
+  maj p <> mUint -> maj p <> mNeg -> maj p <> stLen -> maj p <> 250 -> maj p <> 251 ->
+  maj p <> mText -> maj p <> stKey -> count_of p = 0.
+Proof.
+  intros p H1 H2 H3 H4 H5 H6 H7. unfold count_of, maj in *. cbv zeta.
+  repeat match goal with |- context [?a =? ?b] => destruct (Z.eqb_spec a b); [congruence|] end.
+  reflexivity.
+Qed.
+Lemma bufok_0 : forall p, bufok p 0 -> p_buf p = [].
+Proof. intros p [H|[H1 H2]]; [assumption|lia]. Qed.
+
+Lemma Inv_ctx : forall p, Inv p -> maj p = stValue \/ is_sub (maj p) -> InvC p.
+Proof.
+  intros p (H1 & H2 & H3) Hm. repeat split; auto.
+  - apply shape_ctx; assumption.
+  - apply bufok_0. rewrite <- (count_of_0 p); [assumption|..];
+      unfold is_sub in Hm; splitor; rewrite Hm; zconst; lia.
+Qed.
+
+Definition Dich (b : bytes) (r whole : sres) : Prop :=
+  match r with
+  | Crash _ => True
+  | SR p1 s1 rest d e =>
+      ext b r whole \/
+      (rest = [] /\ d = false /\ e = nilE /\ startx p1 = false /\ exec_step p1 s1 b = whole)
+  end.
+Lemma Dich_ext : forall b r w, ext b r w -> Dich b r w.
+Proof. intros b [] w H; [left; exact H|exact I]. Qed.
+
+(* ----- definite and indefinite containers ----- *)
+Lemma InvC_pop_tail : forall p, InvC p -> maj p <> stValue -> exists c l,
+  cfg (len_pop p) = c :: l /\ ctxs l /\ p_err (len_pop p) = 0 /\ p_buf (len_pop p) = [].
+Proof.
+  intros p (H1 & H2 & H3) Hm. destruct (len_pop_proj p) as (A & B & C & D).
+  unfold cfg in *. destruct (ctxs_tail _ _ H2 Hm) as [Ht _].
+  exists (p_cur p), (p_stack p). rewrite A, B, C, D. auto.
+Qed.
+
+Lemma step_array_inv : forall p s a p1 s1 rest d,
+  InvC p -> maj p <> stValue -> step_array p s a = SR p1 s1 rest d nilE -> InvE p1.
+Proof.
+  intros p s a p1 s1 rest d HI Hm H. unfold step_array, handle_len in H.
+  destruct (p_lcur p >? 0).
+  - eapply step_value_inv; eauto.
+  - destruct (vis s EArrEnd) as [s2 err]. destruct (isnil err) eqn:Ee.
+    + destruct (pop_state (len_pop p) s2) as [[[[p2 s3] d2] e2]|] eqn:E; [|discriminate].
+      invSR H. apply InvC_InvE.
+      destruct (InvC_pop_tail p HI Hm) as (c & l & A & B & C & D).
+      eapply pop_state_inv; eauto.
+    + invSR H. discriminate.
+Qed.
+
+Lemma step_map_inv : forall p s a p1 s1 rest d,
+  InvC p -> maj p <> stValue -> step_map p s a = SR p1 s1 rest d nilE -> InvE p1.
+Proof.
+  intros p s a p1 s1 rest d HI Hm H. unfold step_map, handle_len in H.
+  destruct (p_lcur p >? 0).
+  - destruct (zlen a >? 0).
+    + eapply init_map_key_inv; eauto.
+    + invSR H. apply InvC_InvE; assumption.
+  - destruct (vis s EObjEnd) as [s2 err]. destruct (isnil err) eqn:Ee.
+    + destruct (pop_state (len_pop p) s2) as [[[[p2 s3] d2] e2]|] eqn:E; [|discriminate].
+      invSR H. apply InvC_InvE.
+      destruct (InvC_pop_tail p HI Hm) as (c & l & A & B & C & D).
+      eapply pop_state_inv; eauto.
+    + invSR H. discriminate.
+Qed.
+
+Lemma startx_false : forall p m, maj p = m ->
+  (Z.land m (stStartX + stIndef) =? stStartX) = false -> startx p = false.
+Proof. intros p m H E. unfold startx. unfold maj in H. rewrite H. exact E. Qed.
+
+Lemma step_array_dich : forall b p s a, maj p = mArr -> b <> [] ->
+  Dich b (step_array p s a) (step_array p s (a ++ b)).
+Proof.
+  intros b p s a Hm Hb.
+  destruct (p_lcur p >? 0) eqn:El.
+  - assert (W : forall x, step_array p s x = step_value p s x).
+    { intro x. unfold step_array, handle_len. rewrite El. reflexivity. }
+    rewrite (W a), (W (a ++ b)). destruct a as [|a0 ar].
+    + cbn [step_value app]. right. repeat split; auto.
+      * eapply startx_false; [exact Hm|reflexivity].
+      * rewrite <- W. apply ex_arr; assumption.
+    + apply Dich_ext. apply step_value_ext. discriminate.
+  - apply Dich_ext. unfold step_array, handle_len. rewrite El.
+    destruct (vis s EArrEnd) as [s2 err]. destruct (isnil err) eqn:Ee.
+    + destruct (pop_state (len_pop p) s2) as [[[[p2 s3] d2] e2]|]; ext_solve.
+    + ext_solve.
+Qed.
+
+Lemma step_map_dich : forall b p s a, maj p = mMap -> b <> [] ->
+  Dich b (step_map p s a) (step_map p s (a ++ b)).
+Proof.
+  intros b p s a Hm Hb. unfold step_map at 1. unfold handle_len.
+  destruct (p_lcur p >? 0) eqn:El.
+  - destruct a as [|a0 ar].
+    + cbn [zlen length Z.of_nat app]. replace (0 >? 0) with false by reflexivity.
+      right. repeat split; auto.
+      * eapply startx_false; [exact Hm|reflexivity].
+      * apply ex_map; assumption.
+    + replace (zlen (a0 :: ar) >? 0) with true by (unfold zlen; cbn [length]; lia).
+      apply Dich_ext. unfold step_map, handle_len. rewrite El.
+      replace (zlen ((a0 :: ar) ++ b) >? 0) with true by (unfold zlen; cbn [length app]; lia).
+      apply init_map_key_ext. discriminate.
+  - apply Dich_ext. unfold step_map, handle_len. rewrite El.
+    destruct (vis s EObjEnd) as [s2 err]. destruct (isnil err) eqn:Ee.
+    + destruct (pop_state (len_pop p) s2) as [[[[p2 s3] d2] e2]|]; ext_solve.
+    + ext_solve.
+Qed.
+
+Lemma indef_body_inv : forall isarr p s a p1 s1 rest d,
+  InvC p -> maj p <> stValue -> indef_body isarr p s a = SR p1 s1 rest d nilE -> InvE p1.
+Proof.
+  intros isarr p s a p1 s1 rest d HI Hm H. unfold indef_body in H.
+  destruct a as [|b0 r]; [discriminate|].
+  destruct (b0 =? 255).
+  - destruct (vis s _) as [s2 err]. destruct (isnil err) eqn:Ee.
+    + destruct (pop_state p s2) as [[[[p2 s3] d2] e2]|] eqn:E; [|discriminate].
+      invSR H. apply InvC_InvE.
+      destruct HI as (H1 & H2 & H3). unfold cfg in H2.
+      destruct (ctxs_tail _ _ H2 Hm) as [Ht _].
+      eapply pop_state_inv; eauto. reflexivity.
+    + invSR H. discriminate.
+  - destruct isarr.
+    + eapply step_value_inv; eauto.
+    + eapply init_map_key_inv; eauto.
+Qed.
+
+Lemma indef_body_ext : forall b isarr p s a, a <> [] ->
+  ext b (indef_body isarr p s a) (indef_body isarr p s (a ++ b)).
+Proof.
+  intros b isarr p s [|a0 ar] Ha; [congruence|]. unfold indef_body. cbn [app].
+  destruct (a0 =? 255).
+  - repeat bm; ext_solve.
+  - destruct isarr.
+    + apply (step_value_ext b p s (a0 :: ar)). discriminate.
+    + apply (init_map_key_ext b p s (a0 :: ar)). discriminate.
+Qed.
+
+(* ----- token states ----- *)
+Lemma Inv_leaf : forall p, Inv p -> leafm (maj p) ->
+  p_err p = 0 /\ ctxs (p_stack p) /\ bufok p (count_of p).
+Proof.
+  intros p (H1 & H2 & H3) Hm. repeat split; auto. eapply shape_leaf; eauto.
+Qed.
+
+Lemma leaf_Inv : forall p, p_err p = 0 -> leafm (maj p) -> ctxs (p_stack p) ->
+  bufok p (count_of p) -> Inv p.
+Proof. intros p H1 H2 H3 H4. repeat split; auto. apply sh_leaf; auto. Qed.
+
+Lemma pop_ready : forall q s p1 s1 d e,
+  p_err q = 0 -> p_buf q = [] -> ctxs (p_stack q) ->
+  pop_state q s = Some (p1, s1, d, e) -> InvC p1.
+Proof. intros. eapply pop_state_inv; eauto. reflexivity. Qed.
+Lemma pop_ready_len : forall q s p1 s1 d e,
+  p_err q = 0 -> p_buf q = [] -> ctxs (p_stack q) ->
+  pop_state (len_pop q) s = Some (p1, s1, d, e) -> InvC p1.
+Proof.
+  intros q s p1 s1 d e H1 H2 H3 H. destruct (len_pop_proj q) as (A & B & C & D).
+  eapply pop_ready; [| | |exact H]; congruence.
+Qed.
+
+Lemma count_of_text : forall p, maj p = mText -> count_of p = p_lcur p.
+Proof. intros p H; unfold count_of, maj in *; rewrite H; reflexivity. Qed.
+Lemma count_of_key : forall p, maj p = stKey -> count_of p = p_lcur p.
+Proof. intros p H; unfold count_of, maj in *; rewrite H; reflexivity. Qed.
+Lemma count_of_f32 : forall p, maj p = 250 -> count_of p = 4.
+Proof. intros p H; unfold count_of, maj in *; rewrite H; reflexivity. Qed.
+Lemma count_of_f64 : forall p, maj p = 251 -> count_of p = 8.
+Proof. intros p H; unfold count_of, maj in *; rewrite H; reflexivity. Qed.
+Lemma count_of_num : forall p, maj p = mUint \/ maj p = mNeg \/ maj p = stLen ->
+  count_of p = if (c_minor (p_cur p) =? 25) || (c_minor (p_cur p) =? 26) || (c_minor (p_cur p) =? 27)
+               then 2 ^ (c_minor (p_cur p) - 24) else 0.
+Proof. intros p H; unfold count_of, maj in *; destruct H as [H|[H|H]]; rewrite H; reflexivity. Qed.
+
+Lemma step_text_inv : forall p s a p1 s1 rest d,
+  maj p = mText -> p_err p = 0 -> ctxs (p_stack p) -> bufok p (p_lcur p) ->
+  step_text p s a = SR p1 s1 rest d nilE -> Inv p1.
+Proof.
+  intros p s a p1 s1 rest d Hm He Hc Hb H. unfold step_text in H.
+  destruct (collect p a (p_lcur p)) as [p' rest' [t|]|] eqn:E; [..|discriminate].
+  - destruct (collect_some_app p a [] _ _ _ _ Hb E) as [_ ->].
+    destruct (vis s (EStrRef t)) as [s2 err]. destruct (isnil err) eqn:Ee.
+    + destruct (pop_state _ s2) as [[[[p2 s3] d2] e2]|] eqn:E2; [|discriminate].
+      invSR H. apply InvE_Inv, InvC_InvE. eapply pop_ready_len; [| | |exact E2]; auto.
+    + invSR H. discriminate.
+  - destruct (collect_none_app p a [] _ _ _ Hb E) as (-> & -> & Hb1 & _).
+    invSR H. apply leaf_Inv; auto.
+    + unfold maj in *; pc; rewrite Hm; unfold leafm; auto 12.
+    + rewrite count_of_text by exact Hm. exact Hb1.
+Qed.
+
+Lemma step_text_dich : forall b p s a, maj p = mText -> bufok p (p_lcur p) ->
+  Dich b (step_text p s a) (step_text p s (a ++ b)).
+Proof.
+  intros b p s a Hm Hb. unfold step_text at 1.
+  destruct (collect p a (p_lcur p)) as [p' rest' [t|]|] eqn:E; [..|exact I].
+  - apply Dich_ext. destruct (collect_some_app p a b _ _ _ _ Hb E) as [E2 _].
+    unfold step_text. rewrite E2.
+    destruct (vis s (EStrRef t)) as [s2 err]. destruct (isnil err) eqn:Ee.
+    + destruct (pop_state _ s2) as [[[[p2 s3] d2] e2]|]; ext_solve.
+    + ext_solve.
+  - destruct (collect_none_app p a b _ _ _ Hb E) as (-> & -> & Hb1 & E2).
+    right. repeat split; auto.
+    + eapply startx_false; [exact Hm|reflexivity].
+    + rewrite ex_text by exact Hm. unfold step_text. pc. rewrite E2. reflexivity.
+Qed.
+
+Lemma step_key_inv : forall p s a p1 s1 rest d,
+  maj p = stKey -> p_err p = 0 -> ctxs (p_stack p) -> bufok p (p_lcur p) ->
+  step_key p s a = SR p1 s1 rest d nilE -> Inv p1.
+Proof.
+  intros p s a p1 s1 rest d Hm He Hc Hb H. unfold step_key in H.
+  destruct (collect p a (p_lcur p)) as [p' rest' [t|]|] eqn:E; [..|discriminate].
+  - destruct (collect_some_app p a [] _ _ _ _ Hb E) as [_ ->].
+    destruct (vis s (EKeyRef t)) as [s2 err]. destruct (isnil err) eqn:Ee.
+    + invSR H. apply InvE_Inv.
+      destruct (len_pop_proj (set_buf p [])) as (A & B & C & D).
+      repeat split; pc; try congruence.
+      unfold cfg; pc. rewrite B. pc. apply sh_leaf; [unfold leafm; pc; auto 12|assumption].
+    + invSR H. apply isnil_false in Ee. congruence.
+  - destruct (collect_none_app p a [] _ _ _ Hb E) as (-> & -> & Hb1 & _).
+    invSR H. apply leaf_Inv; auto.
+    + unfold maj in *; pc; rewrite Hm; unfold leafm; auto 12.
+    + rewrite count_of_key by exact Hm. exact Hb1.
+Qed.
+
+Lemma step_key_dich : forall b p s a, maj p = stKey -> bufok p (p_lcur p) ->
+  Dich b (step_key p s a) (step_key p s (a ++ b)).
+Proof.
+  intros b p s a Hm Hb. unfold step_key at 1.
+  destruct (collect p a (p_lcur p)) as [p' rest' [t|]|] eqn:E; [..|exact I].
+  - apply Dich_ext. destruct (collect_some_app p a b _ _ _ _ Hb E) as [E2 _].
+    unfold step_key. rewrite E2.
+    destruct (vis s (EKeyRef t)) as [s2 err]. destruct (isnil err) eqn:Ee; ext_solve.
+  - destruct (collect_none_app p a b _ _ _ Hb E) as (-> & -> & Hb1 & E2).
+    right. repeat split; auto.
+    + eapply startx_false; [exact Hm|reflexivity].
+    + rewrite ex_key by exact Hm. unfold step_key. pc. rewrite E2. reflexivity.
+Qed.
